@@ -71,8 +71,10 @@ Definition flags_ok (st : state) : Prop :=
     i_dying im = false /\ (i_exec im = 0 -> i_deferred im = false) /\
     N.of_nat (phc (ids (i_nodes im))) <= i_exec im.
 
-(* shared trackables are user trackables (never the trackable base of a signal) *)
-Definition shared_ok (st : state) : Prop := Forall (fun e => fst e < 1000) (shared st).
+(* the keys of the shared table: user trackables (never the trackable base of a signal), or
+   signal objects g < 1000 under the key 2000 + g *)
+Definition shkey (k : N) : Prop := k < 1000 \/ (2000 <= k /\ k < 3000).
+Definition shared_ok (st : state) : Prop := Forall (fun e => shkey (fst e)) (shared st).
 
 Record WF (st : state) : Prop := mkWF
   { wf_c : WFc st
